@@ -73,7 +73,7 @@ class World:
             return ("exc", "RecursionError", ""), e
         except Exception as e:  # noqa
             return ("exc", type(e).__name__, str(e)[:80]), e
-        return ("ok", trees.sig_typed(tree)), tree
+        return ("ok", trees.sig_hash(tree), trees.brief(tree)), tree
 
     def _outcome_tokenize(self, parser, text):
         try:
@@ -262,6 +262,8 @@ class World:
         def brief(o):
             if o[0] == "exc":
                 return f"{o[1]}({o[2][:40]})"
+            if len(o) > 2:
+                return f"ok:[{o[2]}]#{o[1][:8]}"
             return f"{o[0]}:{str(o[1])[:120]}"
         who = "a fresh parser" if where == "fresh-parser" else "a fresh parser in a pristine process"
         detail = (f"{op}({text!r}) on the used parser gave {brief(got)}, "
@@ -409,6 +411,9 @@ class ParserSim:
                 pool.append(rng.choice(cands) if cands else base + " ")
             elif r < 0.35 + 0.65 * (1 - fail_bias):
                 pool.append(gen.valid_text(rng, gcfg) if rng.random() < 0.8 else rng.choice(gen.CORPUS))
+            elif rng.random() < 0.04:
+                # long flat inputs (no nesting at all): hundreds of terms, sometimes left dangling
+                pool.append(gen.long_flat(rng))
             else:
                 q = rng.random()
                 if q < 0.4:
